@@ -988,6 +988,8 @@ impl Server {
             let result = self.connections.with_connection(*id, |conn| -> Result<bool> {
                 match conn.flush() {
                     Ok(_) => Ok(conn.has_pending_writes()),
+                    // The peer is not reading right now: keep the data and retry on a later cycle
+                    Err(FerrousError::Connection(ref msg)) if msg.contains("would block") => Ok(true),
                     Err(e) if matches!(e, FerrousError::Connection(_)) => {
                         // Connection error - mark for closing
                         conn.state = ConnectionState::Closing;
